@@ -577,7 +577,7 @@ def rule_count_addr(ctx, rep, rule="R-COUNT-ADDR"):
                             bad.append((b, t["span"], "%s to %s" % (path, F.ts(tys[-1]))))
         nsites = 0
         for b, B, bi, t, cls, ordr in atomics.sites(F):
-            if cls in (model.ATOMIC_RMW_ADD, model.ATOMIC_RMW_SUB, model.ATOMIC_LOAD, model.ATOMIC_OTHER):
+            if cls in (model.ATOMIC_RMW_ADD, model.ATOMIC_RMW_SUB, model.ATOMIC_LOAD, model.ATOMIC_OTHER, model.ATOMIC_CAS):
                 nsites += 1
         if bad:
             for b, span, what in bad:
@@ -690,7 +690,7 @@ def count_sites(F):
             r = t.get("resolved")
             path = r["def"] if isinstance(r, dict) else t.get("callee", "")
             cls, _ = model.classify(path)
-            if cls in (model.ATOMIC_NEW, model.ATOMIC_RMW_ADD, model.ATOMIC_RMW_SUB, model.ATOMIC_LOAD, model.ATOMIC_OTHER, model.FENCE):
+            if cls in (model.ATOMIC_NEW, model.ATOMIC_RMW_ADD, model.ATOMIC_RMW_SUB, model.ATOMIC_LOAD, model.ATOMIC_OTHER, model.ATOMIC_CAS, model.FENCE):
                 out.append((b, bi, t, cls))
     return out
 
